@@ -240,6 +240,12 @@ PREFIXES = {
     "stable-hb": ["start", "coordDone ok", "metaDone ok", "joinDone ok 1 5 1 2", "partsDone ok", "syncDone ok 1:0;2:1", "advance 5", "fire 0"],
     "prepare": ["start", "coordDone ok", "metaDone ok", "joinDone ok 1 5 0 0", "syncDone ok 1:0,1", "advance 5", "fire 0",
                 "hbDone err:rebalanceInProgress", "advance 1/8", "fire 2", "coordDone ok", "metaDone ok"],
+    # state left over from a failed call: stop() before the first start()
+    "stop-first": ["stop", "start", "coordDone ok"],
+    # a heartbeat still unanswered when the member has rejoined into a new generation by another path
+    "hb-stale": ["start", "coordDone ok", "metaDone ok", "joinDone ok 1 5 0 0", "syncDone ok 1:0,1", "advance 5", "fire 0",
+                 "consumerErr 0 illegalGeneration", "advance 1/8", "fire 2", "coordDone ok", "metaDone ok", "joinDone ok 1 6 0 0",
+                 "syncDone ok 1:0"],
     "stop-drain": ["start", "coordDone ok", "metaDone ok", "joinDone ok 1 5 0 0", "syncDone ok 1:0,1", "advance 5", "fire 0",
                    "hbDone err:rebalanceInProgress", "stop"],
 }
@@ -452,7 +458,7 @@ def run(ctx, res, pid):
         if not thorough:
             for b in range(ctx.scale(30, 0)):
                 handle(ctx, res, pid, S.check_scenarios(ctx, random_batch(base + b, 100, [10, 20, 40, 60, 90], pid), pid), seen)
-            run_exhaustive(ctx, res, pid, seen, 3, False, ["fresh", "stable", "stable-hb", "prepare", "stop-drain"], None)
+            run_exhaustive(ctx, res, pid, seen, 3, False, ["fresh", "stable", "stable-hb", "prepare", "stop-drain", "stop-first", "hb-stale"], None)
             run_exhaustive(ctx, res, pid, seen, 4, True, ["fresh"], None)
             with multiprocessing.Pool(min(8, os.cpu_count() or 2)) as pool:
                 run_fullstack_stage(ctx, res, pid, [base % 100000 + i for i in range(12)], pool, seen)
@@ -461,7 +467,7 @@ def run(ctx, res, pid):
                 jobs = [(base + b, 250, [10, 20, 40, 60, 90, 150], pid) for b in range(400)]
                 for results in pool.imap_unordered(_worker_random, jobs, chunksize=4):
                     handle(ctx, res, pid, results, seen)
-                run_exhaustive(ctx, res, pid, seen, 5, False, ["fresh", "stable", "stable-hb", "prepare", "stop-drain"], pool)
+                run_exhaustive(ctx, res, pid, seen, 5, False, ["fresh", "stable", "stable-hb", "prepare", "stop-drain", "stop-first", "hb-stale"], pool)
                 run_exhaustive(ctx, res, pid, seen, 6, True, ["fresh", "stable"], pool)
                 run_fullstack_stage(ctx, res, pid, [base % 100000 + i for i in range(300)], pool, seen)
         res.extra["error_kinds_hit"] = sorted(k for k in res.hist if k.startswith("err@"))
@@ -497,7 +503,7 @@ def search(ctx, res, broken, pid):
         # 2. fresh random scenarios and the bounded-exhaustive trees
         for b in range(ctx.scale(40, 400)):
             handle(ctx, r2, pid, S.check_scenarios(ctx, random_batch(base + 1000 + b, 100, [10, 20, 40, 60, 90], pid), pid), seen)
-        run_exhaustive(ctx, r2, pid, seen, ctx.scale(4, 5), False, ["fresh", "stable", "stable-hb", "prepare", "stop-drain"], None)
+        run_exhaustive(ctx, r2, pid, seen, ctx.scale(4, 5), False, ["fresh", "stable", "stable-hb", "prepare", "stop-drain", "stop-first", "hb-stale"], None)
         with multiprocessing.Pool(min(8, os.cpu_count() or 2)) as pool:
             run_fullstack_stage(ctx, r2, pid, [base % 100000 + 1000 + i for i in range(ctx.scale(24, 200))], pool, seen)
         known = core.load_known_findings()
